@@ -111,7 +111,7 @@ pub fn vx_update_max_buffering_delays(min_buffer_delay_us: u64, cur: u64, ecu: &
 pub fn vx_window_max() -> (r: u64) ensures r <= 0x2000_0000_0000_0000 { unimplemented!() }
 //@ extract src/utils/mod.rs region `if recalc_max_buffer_time_us {` .. `$end` in fn buffer_sort_messages
 //@   sig pub fn threshold_result(recalc_max_buffer_time_us: bool, min_buffer_delay_us: u64, max_buffer_time_us: u64) -> (r: u64)
-//@   sub R11 `min_buffer_delay_us + {__}` => `min_buffer_delay_us + vx_window_max()`
+//@   sub R11 `{ let x = max_buffering_delays __ }` => `vx_window_max()`
 //@   spec
 //@|    requires min_buffer_delay_us <= 0x2000_0000_0000_0000, min_buffer_delay_us <= max_buffer_time_us <= 0x4000_0000_0000_0000,
 //@|    ensures
